@@ -55,6 +55,8 @@ def render(op):
     if k == "dvset":
         name = KINDS[t[1]][1]
         return "print(E(function(){ DV.set%s(%s, %s, %s); return 'ok'; }));" % (name, t[2], js_val(t[4]), "true" if t[3] == "1" else "false")
+    if k == "copy":
+        return "print(E(function(){ V[%s].set(V[%s], %s); return 'ok'; }));" % (t[1], t[2], t[3])
     if k == "detach":
         return "print(E(function(){ __detach(B); return 'ok'; }));"
     raise ValueError(op)
@@ -98,7 +100,7 @@ def gen_history(r, n_ops):
             ops.append("len %d" % (r() % nviews))
         elif c < 65 and nviews:
             ops.append("get %d %d" % (r() % nviews, r() % 7))
-        elif c < 85 and nviews:
+        elif c < 82 and nviews:
             if r() % 8 == 0:
                 val = "n:%d" % ((r() % (1 << 70)) - (1 << 69) if r() % 2 else [0, 1, -1, 2 ** 63, -(2 ** 63), 2 ** 64 - 1, 2 ** 64][r() % 7])
             elif r() % 3 == 0:
@@ -106,6 +108,9 @@ def gen_history(r, n_ops):
             else:
                 val = "d:" + dbits(INTERESTING[r() % len(INTERESTING)])
             ops.append("set %d %d %s" % (r() % nviews, r() % 7, val))
+        elif c < 89 and nviews > 1:
+            ops.append("copy %d %d %d" % (r() % nviews, r() % nviews, r() % 3))
+            ops.append("bytes")
         elif c < 92:
             k = [x for x in kinds if x != "u8c"][r() % 9]
             ops.append("dvget %s %d %d" % (k, r() % (size + 3), r() % 2))
